@@ -32,6 +32,8 @@ from srctools.vmf import (  # noqa: E402
 
 NANO = Decimal(10) ** 9
 REPO_ROOT = os.path.dirname(os.path.realpath(os.environ.get('VERIF_SRC', '/repo/src')))
+if not os.path.isdir(os.path.join(REPO_ROOT, 'tests')):     # a scratch copy of src only (mutants): the shipped maps
+    REPO_ROOT = '/repo'
 
 
 class Machinery(Exception):
@@ -235,14 +237,14 @@ def tokens(text: str) -> list:
 
     def path() -> str:
         # block path without the "hidden" wrappers, so clause names stay in a finite list
-        return '/' + '/'.join(b for b in stack if b != 'hidden')
+        return ''.join('/' + b for b in stack if b != 'hidden')
 
     def label(key: str) -> str:
         # clause label of a token: path/key, with row numbers and user-chosen key names abstracted
         top = stack[-1] if stack else ''
         if re.match(r'row\d+\Z', key):
             key = 'row'
-        elif top in ('world', 'entity') and key not in ('id', 'classname', 'mapversion'):
+        elif top in ('world', 'entity') and key != 'id':
             key = 'replaceNN' if re.match(r'replace\d\d\Z', key) else '<key>'
         elif top == 'connections':
             key = '<output>'
@@ -286,6 +288,217 @@ def tokens(text: str) -> list:
     if stack:
         raise ValueError('unclosed block')
     return out
+
+
+def memberships(text: str) -> dict:
+    """What a file says about group / visgroup membership and group flags, read off its tokens:
+    pairs [object ID, referenced ID] per category (for the parse records of hand-written / shipped files)."""
+    toks = lex(text)
+    out = {'wsolid_group': [], 'wsolid_vis': [], 'esolid_group': [], 'esolid_vis': [], 'ent_group': [], 'ent_vis': [],
+           'group_auto': [], 'group_shown': []}
+    stack: list = []      # [name, object id]
+    i = 0
+    while i < len(toks):
+        ty, val = toks[i]
+        if ty == '}':
+            stack.pop()
+            i += 1
+        elif i + 1 < len(toks) and toks[i + 1][0] == '{':
+            stack.append([val.casefold(), 0])
+            i += 2
+        else:
+            key, v = val, toks[i + 1][1]
+            names = [b[0] for b in stack if b[0] != 'hidden']
+            if key == 'id' and stack and _INT.match(v):
+                stack[-1][1] = int(v)
+            elif names[-1:] == ['editor'] and len(names) >= 2 and _INT.match(v):
+                owner = [b for b in stack if b[0] != 'hidden'][-2]
+                inworld = names[0] == 'world'
+                if owner[0] == 'solid' and key in ('groupid', 'visgroupid'):
+                    out[('w' if inworld else 'e') + 'solid_' + ('group' if key == 'groupid' else 'vis')].append([owner[1], int(v)])
+                elif owner[0] == 'entity' and key in ('groupid', 'visgroupid'):
+                    out['ent_' + ('group' if key == 'groupid' else 'vis')].append([owner[1], int(v)])
+                elif owner[0] == 'group' and key in ('visgroupautoshown', 'visgroupshown'):
+                    out['group_auto' if key == 'visgroupautoshown' else 'group_shown'].append([owner[1], int(v)])
+            i += 2
+    return {k: sorted(v) for k, v in out.items()}
+
+
+# A map the way Hammer writes it (structure as documented for the format: group / visgroup membership as
+# "groupid" / "visgroupid" in the editor blocks of world brushes and entities, group blocks in the world).
+HAMMER_TEXT = r'''versioninfo
+{
+	"editorversion" "400"
+	"editorbuild" "8456"
+	"mapversion" "3"
+	"formatversion" "100"
+	"prefab" "0"
+}
+visgroups
+{
+	visgroup
+	{
+		"name" "Tree_1"
+		"visgroupid" "5"
+		"color" "65 45 0"
+		visgroup
+		{
+			"name" "Branch_left"
+			"visgroupid" "8"
+			"color" "234 123 60"
+		}
+	}
+}
+viewsettings
+{
+	"bSnapToGrid" "1"
+	"bShowGrid" "1"
+	"bShowLogicalGrid" "0"
+	"nGridSpacing" "32"
+	"bShow3DGrid" "0"
+}
+world
+{
+	"id" "1"
+	"mapversion" "3"
+	"classname" "worldspawn"
+	"skyname" "sky_day01_01"
+	solid
+	{
+		"id" "2"
+		side
+		{
+			"id" "1"
+			"plane" "(-64 64 64) (64 64 64) (64 -64 64)"
+			"material" "BRICK/BRICKFLOOR001A"
+			"uaxis" "[1 0 0 0] 0.25"
+			"vaxis" "[0 -1 0 0] 0.25"
+			"rotation" "0"
+			"lightmapscale" "16"
+			"smoothing_groups" "0"
+		}
+		side
+		{
+			"id" "2"
+			"plane" "(-64 -64 -64) (64 -64 -64) (64 64 -64)"
+			"material" "BRICK/BRICKFLOOR001A"
+			"uaxis" "[1 0 0 0] 0.25"
+			"vaxis" "[0 -1 0 0] 0.25"
+			"rotation" "0"
+			"lightmapscale" "16"
+			"smoothing_groups" "0"
+		}
+		editor
+		{
+			"color" "0 255 0"
+			"groupid" "7"
+			"visgroupid" "5"
+			"visgroupid" "8"
+			"visgroupshown" "1"
+			"visgroupautoshown" "1"
+		}
+	}
+	hidden
+	{
+		solid
+		{
+			"id" "3"
+			side
+			{
+				"id" "3"
+				"plane" "(0 0 0) (1 0 0) (0 1 0)"
+				"material" "TOOLS/TOOLSNODRAW"
+				"uaxis" "[1 0 0 0] 0.25"
+				"vaxis" "[0 -1 0 0] 0.25"
+				"rotation" "0"
+				"lightmapscale" "16"
+				"smoothing_groups" "0"
+			}
+			editor
+			{
+				"color" "0 255 0"
+				"groupid" "7"
+				"visgroupshown" "0"
+				"visgroupautoshown" "1"
+			}
+		}
+	}
+	group
+	{
+		"id" "7"
+		editor
+		{
+			"color" "0 255 0"
+			"visgroupshown" "1"
+			"visgroupautoshown" "0"
+		}
+	}
+	group
+	{
+		"id" "9"
+		editor
+		{
+			"color" "10 20 30"
+			"visgroupshown" "0"
+			"visgroupautoshown" "1"
+		}
+	}
+}
+entity
+{
+	"id" "19"
+	"classname" "func_detail"
+	solid
+	{
+		"id" "4"
+		side
+		{
+			"id" "4"
+			"plane" "(0 0 0) (1 0 0) (0 1 0)"
+			"material" "TOOLS/TOOLSNODRAW"
+			"uaxis" "[1 0 0 0] 0.25"
+			"vaxis" "[0 -1 0 0] 0.25"
+			"rotation" "0"
+			"lightmapscale" "16"
+			"smoothing_groups" "0"
+		}
+		editor
+		{
+			"color" "0 180 0"
+			"visgroupshown" "1"
+			"visgroupautoshown" "1"
+		}
+	}
+	editor
+	{
+		"color" "0 180 0"
+		"groupid" "7"
+		"groupid" "9"
+		"visgroupid" "5"
+		"visgroupshown" "1"
+		"visgroupautoshown" "1"
+		"logicalpos" "[0 500]"
+	}
+}
+entity
+{
+	"id" "20"
+	"classname" "info_target"
+	"origin" "0 0 0"
+	editor
+	{
+		"color" "220 30 220"
+		"groupid" "9"
+		"visgroupshown" "1"
+		"visgroupautoshown" "0"
+		"logicalpos" "[0 1000]"
+	}
+}
+cameras
+{
+	"activecamera" "-1"
+}
+'''
 
 
 # ------------------------------------------------------------------ the builder: one public API call per action
@@ -479,7 +692,8 @@ _TRI_ERR = re.compile(r'Displacement array for triangle_tags')
 
 
 def err_class(exc: BaseException) -> str:
-    msg = str(exc).split('\n')[0]
+    msg = re.sub(r'"[^"]*("|$)', '"~"', str(exc), flags=re.S)      # quoted data out of the class name
+    msg = msg.split('\n')[0]
     return (type(exc).__name__ + ': ' + re.sub(r'\d+', 'N', msg))[:140]
 
 
@@ -561,6 +775,7 @@ def export_parse(vmf: VMF, opts: dict, out, src: str, hist, extra_sig: dict | No
            'preserve': opts['preserve'], 'patched': '', 'err': ''}
     sig.update(doc_flags(doc))
     sig['tinyneg'] = _has_tinyneg(doc)
+    fv = features_of(doc, opts)
     if extra_sig:
         sig.update(extra_sig)
     try:
@@ -572,7 +787,7 @@ def export_parse(vmf: VMF, opts: dict, out, src: str, hist, extra_sig: dict | No
     stats = {'xp': 0, 'parse_fail': 0, 'patched': 0}
 
     def attempt(text: str, sig: dict) -> str:
-        rec = {'k': 'xp', 'tid': tid, 'opts': opts, 'doc': doc, 'toks1': toks1, 'tokfail': tokfail, 'sig': sig, 'hist': hist}
+        rec = {'k': 'xp', 'tid': tid, 'patched': bool(sig['patched']), 'opts': opts, 'doc': doc, 'toks1': toks1, 'tokfail': tokfail, 'sig': sig, 'fv': fv, 'hist': hist}
         err = ''
         try:
             vmf2 = VMF.parse(Keyvalues.parse(text), preserve_ids=opts['preserve'])
@@ -706,34 +921,351 @@ def features_of(doc: dict, opts: dict) -> dict:
     }
 
 
+# ------------------------------------------------------------------ seeded random documents (direction B)
+def rand_m(rng: random.Random, big: bool = True) -> list:
+    """a fixed-point number away from rounding boundaries whose limbs survive the trip through a double"""
+    while True:
+        c = rng.random()
+        s = rng.randint(0, 1)
+        if c < 0.25:
+            t = [s, rng.randint(0, 16384), 0]
+        elif c < 0.4:
+            t = [s, rng.randint(0, 4096), rng.randint(0, 63) * 15625000]
+        elif c < 0.6:
+            t = [s, rng.randint(0, 9999), rng.randint(0, 999999) * 1000]
+        elif c < 0.85:
+            t = [s, rng.randint(0, 99999 if big else 999), rng.randint(0, 999999999)]
+        elif c < 0.93:
+            t = [s, 0, rng.choice([400, 499, 502, 700, 1400, 999498, 999999502])]   # around the last kept digit
+        else:
+            t = [s, rng.choice([0, 1, 255, 65535, 99999]), rng.choice([0, 500000000, 999999498, 999999600])]
+        if t[1] == 0 and t[2] == 0:
+            t[0] = 0
+        if t[0] == 1 and t[1] == 0 and t[2] < 500:
+            continue    # "-0": left to the dedicated case
+        if safe_m(t) and enc_m(dec_m(t)) == t:
+            return t
+
+
+def rand_g(rng: random.Random) -> list:
+    while True:
+        c = rng.random()
+        if c < 0.2:
+            return [0, 0, 0]
+        if c < 0.5:
+            t = [rng.randint(0, 1), rng.randint(1, 999) * 1000000, rng.randint(0, 3)]
+            while t[1] < 100000000:
+                t[1] *= 10
+        else:
+            t = [rng.randint(0, 1), rng.randint(100000000, 999999999), rng.randint(-7, 9)]
+        if safe_g(t) and enc_g(dec_g(t)) == t:
+            return t
+
+
+def rand_v(rng, big=True) -> list:
+    return [rand_m(rng, big), rand_m(rng, big), rand_m(rng, big)]
+
+
+def rand_color(rng) -> list:
+    return [[0, rng.randint(0, 255), 0] for _ in range(3)]
+
+
+def rand_axis(rng) -> list:
+    sc = rand_m(rng, False)
+    while sc[1] == 0 and sc[2] < 1000:
+        sc = rand_m(rng, False)
+    return [rand_m(rng, False), rand_m(rng, False), rand_m(rng, False), rand_m(rng), sc]
+
+
+ALL_STR = ['plain', 'mixed', 'quote', 'bslash', 'lf', 'empty', 'uni', 'punct']
+KEYNAMES = ['origin', 'angles', 'targetname', 'Message', 'spawnflags', 'model', 'rendercolor', 'Straße', 'my key',
+            'parentname', 'StartDisabled', 'x', '_light', 'file', 'a.b', 'UPPER', 'ключ']
+VARNAMES = ['skin', '$skin', 'Start_Enabled', '$x', 'connectioncount', '$Timer_Delay', 'a', 'STRASSE', 'straße', 'var_1']
+OUTNAMES = ['OnTrigger', 'OnUser1', 'onpass', 'OnMapSpawn', 'On "Quoted"', 'On\\Back']
+INSTNAMES = ['relay', 'inst part', 'Branch_1', 'q"uote']
+
+
+def rand_vert(rng, blend: int) -> dict:
+    w = {'n': rand_v(rng, False), 'd': rand_m(rng), 'o': rand_v(rng), 'on': rand_v(rng, False), 'a': rand_m(rng, False),
+         'ta': rng.choice([0, 1, 9]), 'tb': rng.choice([0, 1, 9]), 'mb': [[0, 0, 0]] * 4, 'ma': [[0, 0, 0]] * 4, 'mc': []}
+    if blend:
+        w['mb'] = [rand_g(rng) for _ in range(4)]
+        if w['mb'] == [[0, 0, 0]] * 4:
+            w['mb'][rng.randrange(4)] = [0, 500000000, -1]
+        w['ma'] = [rand_g(rng) for _ in range(4)]
+        if blend == 1:
+            w['mc'] = [rand_v(rng, False) for _ in range(4)]
+    return w
+
+
+def random_doc(rng: random.Random, out, stats: dict, scale: int, special: str = '') -> None:
+    b = Builder()
+    vmf = b.vmf
+    log = scale <= 2
+
+    def do(a):
+        b.step(finish_action(a), out, 'random', log=log)
+        stats['steps'] = stats.get('steps', 0) + 1
+
+    n_steps = rng.randint(3, 12) * scale * scale
+    for _ in range(n_steps):
+        ents = len(vmf.entities)
+        e = rng.randint(0, ents)
+        ent = b.ent(e)
+        solids = ent.solids
+        c = rng.random()
+        if c < 0.08 or (ents == 0 and c < 0.3):
+            do({'op': 'AddEnt', 'cls': pick(rng, ['plain', 'mixed', 'uni'])})
+        elif c < 0.2:
+            k = rng.choice(KEYNAMES)
+            k = rng.choice([k, k.upper(), k.lower(), k.capitalize()])
+            if e == 0 and k.casefold() in ('classname', 'mapversion'):
+                continue
+            do({'op': 'SetKey', 'e': e, 'k': k, 'v': pick(rng, ALL_STR)})
+        elif c < 0.22:
+            ks = [k for k in ent._keys if k.casefold() not in ('classname', 'targetname', 'nodeid')]
+            if ks:
+                k = rng.choice(ks)
+                do({'op': 'DelKey', 'e': e, 'k': rng.choice([k, k.upper()])})
+        elif c < 0.3:
+            do({'op': 'SetFixup', 'e': e, 'var': rng.choice(VARNAMES), 'val': pick(rng, ALL_STR)})
+        elif c < 0.32:
+            if ent._fixup:
+                do({'op': 'DelFixup', 'e': e, 'var': rng.choice(list(ent._fixup))})
+        elif c < 0.42:
+            comma = rng.random() < 0.4
+            fld = ['plain', 'mixed', 'quote', 'bslash', 'uni', 'empty']
+            prm = pick(rng, ALL_STR)
+            if comma and rng.random() < 0.3:
+                prm = rng.choice(['a,b', ',', '1,2,3 4', 'x,,y'])
+            o = {'name': rng.choice(OUTNAMES), 'io': rng.choice(['', '', rng.choice(INSTNAMES)]),
+                 'target': pick(rng, fld).replace(',', '_'), 'inp': rng.choice(OUTNAMES + ['Kill', 'SetValue']),
+                 'ii': rng.choice(['', '', rng.choice(INSTNAMES)]), 'params': prm, 'delay': rand_g(rng),
+                 'times': rng.choice([-1, -1, 1, rng.randint(2, 1000)]), 'comma': comma}
+            if o['delay'][0] == 1:
+                o['delay'][0] = 0
+            do({'op': 'AddOut', 'e': e, 'out': o})
+        elif c < 0.5:
+            if e == 0:
+                do({'op': 'SetEntAttr', 'e': 0, 'name': 'comments', 'val': pick(rng, ALL_STR)})
+            else:
+                n = rng.choice(['hidden', 'visShown', 'visAuto', 'color', 'logical', 'comments'])
+                v = {'hidden': rng.random() < 0.7, 'visShown': rng.random() < 0.4, 'visAuto': rng.random() < 0.4,
+                     'color': rand_color(rng), 'logical': f'[{rng.randint(-5000, 5000)} {rng.randint(0, 20000)}]',
+                     'comments': pick(rng, ALL_STR)}[n]
+                if n == 'hidden' and v and special != 'hidden_first' and any(not x.hidden for x in vmf.entities[e:]):
+                    continue    # a hidden entity before a visible one: dedicated case (known reordering defect)
+                do({'op': 'SetEntAttr', 'e': e, 'name': n, 'val': v})
+        elif c < 0.55:
+            if e and rng.random() < 0.5 and vmf.groups:
+                do({'op': 'EntJoin', 'e': e, 'what': 'group', 'id': rng.choice(list(vmf.groups))})
+            elif e and vmf.vis_tree:
+                ids = [v['id'] for v in _flat_vis(vmf)]
+                do({'op': 'EntJoin', 'e': e, 'what': 'vis', 'id': rng.choice(ids)})
+        elif c < 0.62:
+            p1 = rand_v(rng)
+            p2 = rand_v(rng)
+            if any(p1[i] == p2[i] for i in range(3)):
+                continue
+            do({'op': 'AddPrism', 'e': e, 'p1': p1, 'p2': p2, 'mat': pick(rng, SAFE_NAME), 'points': rng.random() < 0.3})
+        elif c < 0.64:
+            do({'op': 'AddSolid', 'e': e})
+        elif c < 0.72:
+            if solids:
+                s = rng.randrange(len(solids)) + 1
+                power = rng.choice([0, 0, 1, 1, 2, 2, 3, 4]) if scale > 1 else rng.choice([0, 0, 1, 2])
+                do({'op': 'AddSide', 'e': e, 's': s, 'plane': [rand_v(rng) for _ in range(3)], 'mat': pick(rng, SAFE_NAME),
+                    'u': rand_axis(rng), 'v': rand_axis(rng), 'rot': rand_g(rng), 'lightmap': rng.randint(1, 1024),
+                    'smooth': rng.randint(0, 2 ** 31 - 2), 'power': power})
+                f = len(solids[s - 1].sides)
+                if power:
+                    side = solids[s - 1].sides[-1]
+                    nv = len(side._disp_verts)
+                    blend = rng.choice([0, 0, 1, 1, 2])
+                    full = rng.random() < 0.5
+                    idxs = range(1, nv + 1) if full else rng.sample(range(1, nv + 1), min(nv, 5))
+                    for i in idxs:
+                        do({'op': 'SetVert', 'e': e, 's': s, 'f': f, 'i': i, 'vert': rand_vert(rng, blend)})
+                    for n, v in (('pos', rand_v(rng)), ('elev', rand_m(rng)), ('flags', rng.randint(0, 7)),
+                                 ('subdiv', rng.random() < 0.5),
+                                 ('allowed', [rng.choice([-1, 0, rng.randint(-2 ** 31 + 2, 2 ** 31 - 2)]) for _ in range(10)])):
+                        if rng.random() < 0.6:
+                            do({'op': 'SetDispAttr', 'e': e, 's': s, 'f': f, 'name': n, 'val': v})
+        elif c < 0.78:
+            if solids:
+                s = rng.randrange(len(solids)) + 1
+                n = rng.choice(['hidden', 'visShown', 'visAuto', 'cordon', 'color', 'group', 'joinvis'])
+                if n in ('group', 'joinvis') and e != 0:
+                    continue    # "not allowed inside brush entities" (Solid.export): membership is the entity's
+                if n == 'group':
+                    if not vmf.groups:
+                        continue
+                    v = rng.choice(list(vmf.groups))
+                elif n == 'joinvis':
+                    if not vmf.vis_tree:
+                        continue
+                    v = rng.choice([x['id'] for x in _flat_vis(vmf)])
+                elif n == 'color':
+                    v = rand_color(rng)
+                else:
+                    v = rng.random() < 0.6
+                do({'op': 'SetSolidAttr', 'e': e, 's': s, 'name': n, 'val': v})
+        elif c < 0.84:
+            if solids and solids[-1].sides:
+                s = len(solids)
+                f = rng.randrange(len(solids[-1].sides)) + 1
+                n = rng.choice(['mat', 'u', 'v', 'rot', 'lightmap', 'smooth', 'points', 'plane'])
+                v = {'mat': pick(rng, SAFE_NAME), 'u': rand_axis(rng), 'v': rand_axis(rng), 'rot': rand_g(rng),
+                     'lightmap': rng.randint(-4, 4096), 'smooth': rng.randint(0, 2 ** 24),
+                     'points': {'has': True, 'p': [rand_v(rng) for _ in range(rng.randint(0, 9))]},
+                     'plane': [rand_v(rng) for _ in range(3)]}[n]
+                do({'op': 'SetSideAttr', 'e': e, 's': s, 'f': f, 'name': n, 'val': v})
+        elif c < 0.88:
+            flat = _flat_paths(vmf)
+            path = rng.choice([[]] + flat) if len(flat) < 12 else []
+            do({'op': 'AddVisgroup', 'path': path, 'name': pick(rng, ALL_STR), 'color': rand_color(rng)})
+        elif c < 0.91:
+            do({'op': 'AddGroup', 'shown': rng.random() < 0.5, 'auto': rng.random() < 0.5, 'color': rand_color(rng)})
+        elif c < 0.94:
+            do({'op': 'AddCamera', 'pos': rand_v(rng), 'look': rand_v(rng)})
+            if rng.random() < 0.5:
+                do({'op': 'CamSetActive', 'i': rng.randint(1, len(vmf.cameras))})
+        elif c < 0.96:
+            p1, p2 = rand_v(rng), rand_v(rng)
+            do({'op': 'AddCordon', 'mins': p1, 'maxs': p2, 'active': rng.random() < 0.5, 'name': pick(rng, ALL_STR)})
+        elif c < 0.985:
+            n = rng.choice(['prefab', 'mapVer', 'hammerVer', 'hammerBuild', 'snap', 'showGrid', 'showLogic', 'show3d',
+                            'grid', 'activeCam', 'cordonOn', 'quickhide', 'instVis'])
+            if n in ('prefab', 'snap', 'showGrid', 'showLogic', 'show3d', 'cordonOn'):
+                v = rng.random() < 0.5
+            elif n == 'instVis':
+                v = rng.choice([-1, 0, 1, 2])
+            elif n == 'activeCam':
+                v = rng.randint(-1, 5)
+            elif n == 'quickhide':
+                v = rng.randint(0, 50)
+            else:
+                v = rng.randint(0, 2 ** 31 - 10)
+            do({'op': 'SetSetting', 'name': n, 'val': v})
+        else:
+            views = []
+            for i in range(4):
+                if rng.random() < 0.3:
+                    ang = [[0, rng.randint(0, 359), rng.randint(0, 899) * 1000000] for _ in range(3)]
+                    views.append({'k': '3d', 'axis': '', 'n': rand_v(rng) + ang})
+                else:
+                    u, v = rand_m(rng), rand_m(rng)
+                    # a coordinate of exactly 0 or +-65536 makes the exported position ambiguous: dedicated case
+                    while RoundM6(u) in ([0, 0], [65536, 0]) or RoundM6(v) in ([0, 0], [65536, 0]):
+                        u, v = rand_m(rng), rand_m(rng)
+                    z = rand_m(rng, False)
+                    z[0] = 0
+                    views.append({'k': '2d', 'axis': rng.choice('xyz'), 'n': [u, v, z]})
+            do({'op': 'SetViews', 'views': views})
+    # dedicated cases for the known defects: exactly one special feature per such document
+    if special == 'mat':
+        if not vmf.brushes:
+            do({'op': 'AddPrism', 'e': 0, 'p1': [[0, 0, 0]] * 3, 'p2': [[0, 64, 0]] * 3, 'mat': 'tools/toolsnodraw', 'points': False})
+        do({'op': 'SetSideAttr', 'e': 0, 's': 1, 'f': 1, 'name': 'mat',
+            'val': rng.choice(['tools\\toolsnodraw', 'brick\\new_wall', 'a"b', 'trail\\'])})
+    elif special == 'key':
+        do({'op': 'SetKey', 'e': 0, 'k': rng.choice(['a\\nb', 'back\\', 'tab\\there']), 'v': 'value'})
+    elif special == 'replaceNN':
+        do({'op': 'SetKey', 'e': 0, 'k': rng.choice(['replacement01', 'replace_tex42', 'REPLACEABLE99']), 'v': 'some value'})
+    elif special == 'view_zero':
+        views = [{'k': '3d', 'axis': '', 'n': [[0, 0, 0]] * 6}] + [{'k': '2d', 'axis': ax, 'n': [[0, 0, 0], [0, 5, 0], [0, 1, 0]]}
+                                                                  for ax in 'xyz']
+        do({'op': 'SetViews', 'views': views})
+    elif special == 'tinyneg':
+        do({'op': 'AddCamera', 'pos': [[1, 0, rng.choice([1, 400, 499])], [0, 1, 0], [0, 2, 0]], 'look': [[0, 0, 0]] * 3})
+    elif special == 'hidden_first':
+        do({'op': 'AddEnt', 'cls': 'info_hidden'})
+        do({'op': 'SetEntAttr', 'e': len(vmf.entities), 'name': 'hidden', 'val': True})
+        do({'op': 'AddEnt', 'cls': 'info_visible'})
+    opts = {'minimal': rng.random() < 0.25, 'mb': rng.random() < 0.8, 'preserve': rng.random() < 0.5, 'inc': rng.random() < 0.7}
+    stats['steps_logged'] = stats.get('steps_logged', 0) + b.logged
+    st = export_parse(vmf, opts, out, 'random', list(b.hist), {'special': special, 'scale': scale}, b.tid)
+    for k, v in st.items():
+        stats[k] = stats.get(k, 0) + v
+
+
+def RoundM6(t) -> list:
+    f6 = (t[2] + 500) // 1000
+    return [t[1] + 1, 0] if f6 == 1000000 else [t[1], f6]
+
+
+def _flat_vis(vmf) -> list:
+    out = []
+
+    def rec(v):
+        out.append({'id': v.id})
+        for c in v.child_groups:
+            rec(c)
+    for v in vmf.vis_tree:
+        rec(v)
+    return out
+
+
+def _flat_paths(vmf) -> list:
+    out = []
+
+    def rec(v, path):
+        out.append(path)
+        if len(path) < 4:
+            for i, c in enumerate(v.child_groups):
+                rec(c, path + [i + 1])
+    for i, v in enumerate(vmf.vis_tree):
+        rec(v, [i + 1])
+    return out
+
+
+def mode_random(out, stats: dict) -> None:
+    rng = random.Random(hlib.seed() * 7919 + 606)
+    thorough = hlib.tier() == 'thorough'
+    n_small, n_mid, n_big = (400, 120, 12) if thorough else (60, 14, 2)
+    for _ in range(n_small):
+        random_doc(rng, out, stats, 1)
+    for _ in range(n_mid):
+        random_doc(rng, out, stats, 2)
+    for _ in range(n_big):
+        random_doc(rng, out, stats, 4)
+    for special in ('mat', 'key', 'replaceNN', 'view_zero', 'tinyneg', 'hidden_first'):
+        for _ in range(6 if thorough else 2):
+            random_doc(rng, out, stats, 1, special)
+
+
 # ------------------------------------------------------------------ modes
-def mode_sim(hist_file: str, out, stats: dict) -> None:
+def mode_sim(hist_file: str, out, stats: dict, log_steps: bool = True) -> None:
     hists = json.load(open(hist_file))
     rng = random.Random(hlib.seed() * 104729 + 6)
-    fvs = []
     for h in hists:
-        run_history(h['h'], h['opts'], rng, out, 'sim', stats)
+        run_history(h['h'], h['opts'], rng, out, 'sim', stats, log_steps=log_steps)
     stats['histories'] = len(hists)
 
 
-def mode_files(out, stats: dict) -> None:
+def mode_files(out, stats: dict, only: str | None = None) -> None:
     root = os.path.join(REPO_ROOT, 'tests')
     paths = []
     for dp, _, fns in os.walk(root):
         paths += [os.path.join(dp, f) for f in fns if f.lower().endswith('.vmf')]
     paths.sort()
+    if only is not None:
+        paths = [p for p in paths if os.path.relpath(p, REPO_ROOT) == only]
     stats['files'] = [os.path.relpath(p, REPO_ROOT) for p in paths]
+    texts = []
     for path in paths:
         with open(path, encoding='cp1251') as f:
-            text = f.read()
-        rel = os.path.relpath(path, REPO_ROOT)
+            texts.append((os.path.relpath(path, REPO_ROOT), f.read()))
+    if only is None or only == '<hammer-style text>':
+        texts.append(('<hammer-style text>', HAMMER_TEXT))
+    for rel, text in texts:
         for preserve in (True, False):
             vmf = VMF.parse(Keyvalues.parse(text), preserve_ids=preserve)
             doc = project(vmf)
             toks = tokens(text)
             if preserve:
                 idsets = {k: sorted({t['n'] for t in toks if t['ik'] == k and t['k'] == 'id'}) for k in ('ent', 'solid', 'side')}
-                out.write({'k': 'parse', 'file': rel, 'toks': toks, 'doc': doc, 'idsets': idsets,
+                out.write({'k': 'parse', 'file': rel, 'toks': toks, 'doc': doc, 'idsets': idsets, 'memb': memberships(text),
                            'sig': {'kind': 'parse', 'action': 'Parse', 'src': 'file', 'file': rel}})
             for minimal in (False, True):
                 opts = {'minimal': minimal, 'mb': True, 'preserve': preserve, 'inc': not minimal}
@@ -743,15 +1275,117 @@ def mode_files(out, stats: dict) -> None:
                     stats[k] = stats.get(k, 0) + v
 
 
+# ------------------------------------------------------------------ binding self-check: corrupted records
+def _leaves(obj, path=()):
+    if isinstance(obj, dict):
+        for k in sorted(obj):
+            yield from _leaves(obj[k], path + (k,))
+    elif isinstance(obj, list):
+        for i, x in enumerate(obj):
+            yield from _leaves(x, path + (i,))
+    else:
+        yield path, obj
+
+
+def _cls(path: tuple) -> str:
+    out = []
+    for i, p in enumerate(path):
+        dyn = i > 0 and path[i - 1] in ('keys', 'fix')
+        out.append('*' if isinstance(p, int) or dyn else p)
+    return '/'.join(out)
+
+
+def _set(obj, path, val):
+    for p in path[:-1]:
+        obj = obj[p]
+    obj[path[-1]] = val
+
+
+def mode_corrupt(in_paths: list, out, stats: dict) -> None:
+    """For every class of leaf of the projected re-read document (and for the token streams), take a record
+    TLC accepted without any mismatch, alter one such leaf and log the altered record: TLC must reject each."""
+    import copy
+    accepted = []
+    for p in in_paths:
+        info = json.load(open(p + '.clean'))     # indexes of xp records without mismatches (written by the check)
+        clean = set(info)
+        with open(p, encoding='utf-8') as f:
+            for n, line in enumerate(f):
+                if n in clean:
+                    accepted.append(json.loads(line))
+    done: dict = {}
+    accepted = [(len(json.dumps(r['doc2'])), i, r) for i, r in enumerate(accepted)]
+    accepted.sort(key=lambda t: t[:2])       # small documents first: the altered copies stay small
+    accepted = [t[2] for t in accepted]
+    n_base = 0
+    for r in accepted:
+        if r['k'] != 'xp' or r['status'] != 'ok':
+            continue
+        fresh = []
+        for path, val in _leaves(r['doc2']):
+            c = _cls(path)
+            if c in done or c == 'world/logical':           # worldspawn's logicalpos is not in the file
+                continue
+            if path[-1] == 'id' and not (r['opts']['preserve'] and not r['patched']):
+                continue                                     # a changed ID is a legal renumbering unless preserve_ids
+            done[c] = True
+            fresh.append((path, val, c))
+        if not fresh and n_base:
+            continue
+        n_base += 1
+        for path, val, c in fresh:
+            q = copy.deepcopy(r)
+            _set(q['doc2'], path, (not val) if isinstance(val, bool) else (val + 1 if isinstance(val, int) else val + 'x'))
+            q['sig'] = {'kind': 'corrupt', 'action': 'ExportParse', 'cls': 'doc2:' + c}
+            out.write(q)
+        if n_base == 1 and not r['patched']:
+            for which, how in (('toks2', 'drop'), ('toks2', 'value'), ('toks1', 'drop'), ('toks1', 'label')):
+                q = copy.deepcopy(r)
+                t = q[which]
+                j = next(i for i, x in enumerate(t) if x['t'] == 'kv' and x['ik'] == '' and i > 8)
+                if how == 'drop':
+                    del t[j]
+                elif how == 'value':
+                    t[j]['v'] += 'x'
+                else:
+                    t[j]['c'] += 'x'
+                    t[j]['k'] += 'x'
+                q['sig'] = {'kind': 'corrupt', 'action': 'ExportParse', 'cls': f'{which}:{how}'}
+                out.write(q)
+    stats['leaf_classes'] = sorted(done)
+    stats['bases'] = n_base
+
+
 def main() -> None:
     mode = sys.argv[1]
     stats: dict = {}
     if mode == 'sim':
         out = hlib.RecWriter(sys.argv[3])
-        mode_sim(sys.argv[2], out, stats)
+        mode_sim(sys.argv[2], out, stats, log_steps=len(sys.argv) < 5)
+    elif mode == 'random':
+        out = hlib.RecWriter(sys.argv[2])
+        mode_random(out, stats)
     elif mode == 'files':
         out = hlib.RecWriter(sys.argv[2])
         mode_files(out, stats)
+    elif mode == 'corrupt':
+        out = hlib.RecWriter(sys.argv[-1])
+        mode_corrupt(sys.argv[2:-1], out, stats)
+    elif mode == 'replay':
+        # re-execute the concrete call history stored in a replay file against the current tree
+        rp = json.load(open(sys.argv[2]))
+        rec = rp['record']
+        out = hlib.RecWriter(sys.argv[3])
+        hist = rec.get('hist') or []
+        if rec.get('file') or (hist and hist[0].get('op') == 'ParseFile'):
+            mode_files(out, stats, rec.get('file') or hist[0]['file'])
+        else:
+            b = Builder()
+            for a in hist:
+                b.step(a, out, 'replay')
+            opts = rec.get('opts') or {'minimal': False, 'mb': True, 'preserve': False, 'inc': True}
+            extra = {k: rp[k] for k in ('special', 'scale') if k in rp}
+            export_parse(b.vmf, opts, out, rp.get('src', 'replay'), list(b.hist), extra, b.tid)
     else:
         raise SystemExit(2)
     out.close()
